@@ -106,17 +106,23 @@ def read_policy_from_file(path):
         if sections <= policy_sections:
             parsed_policies = dict()
 
-            default_policy = object_policy.get('preset')
+            default_policy = object_policy.get('preset', {})
+            if not isinstance(default_policy, dict):
+                raise ValueError(
+                    "The 'preset' section of policy '{}' must be a JSON "
+                    "object mapping object types to operation "
+                    "permissions.".format(name)
+                )
             if default_policy:
                 parsed_policies['preset'] = parse_policy(default_policy)
 
-            group_policies = object_policy.get('groups')
+            group_policies = object_policy.get('groups', {})
+            if not isinstance(group_policies, dict):
+                raise ValueError(
+                    "The 'groups' section of policy '{}' must be a JSON "
+                    "object mapping group names to policies.".format(name)
+                )
             if group_policies:
-                if not isinstance(group_policies, dict):
-                    raise ValueError(
-                        "The 'groups' section of policy '{}' must be a JSON "
-                        "object mapping group names to policies.".format(name)
-                    )
                 parsed_group_policies = dict()
                 for group_name, group_policy in six.iteritems(group_policies):
                     parsed_group_policies[group_name] = parse_policy(
